@@ -347,7 +347,8 @@ def readdedHist : List Op :=
    .redefine 0 ⟨[0], [], []⟩, .run 0 true false [] none, .redefine 0 ⟨[0, 1], [], []⟩]
 
 example : (infoReasons (runHist true readdedHist) 0).changed = [1] ∧ (infoReasons (runHist true readdedHist) 0).added = [1]
-    ∧ depIs .modified .md5 ((runHist true readdedHist).rcd 0) (runHist true readdedHist).fs 1 = false := by decide
+    ∧ depIsPinned .modified .md5 ((runHist true readdedHist).rcd 0) (runHist true readdedHist).fs 1 = false
+    ∧ depIs .modified .md5 ((runHist true readdedHist).rcd 0) (runHist true readdedHist).fs 1 = true := by decide
 
 /-- non-vacuity of the hypotheses: after `overwrittenHist` the last execution of task 0 is recorded with both
     dependencies and the configured checker, and dependency 0 is listed as changed -/
